@@ -24,11 +24,11 @@ func ffOps() []ffWeighted {
 	return []ffWeighted{
 		// (rapid draws small indices more often: the requests that matter
 		// most for the property come first.)
-		{"rename", 14, (*ffCase).opRename},
 		{"readdir", 20, (*ffCase).opReadDir},
-		{"lookup", 14, (*ffCase).opLookup},
-		{"forget", 11, (*ffCase).opForget},
+		{"rename", 12, (*ffCase).opRename},
 		{"unlink_rmdir", 10, (*ffCase).opUnlinkOrRmdir},
+		{"forget", 11, (*ffCase).opForget},
+		{"lookup", 14, (*ffCase).opLookup},
 		{"create", 9, (*ffCase).opCreate},
 		{"opendir", 5, (*ffCase).opOpenDir},
 		{"link", 6, (*ffCase).opLink},
